@@ -60,6 +60,17 @@ ExactOutOK(C, zfo, ain, aout, amt) ==
         /\ \/ ~V2.ok \/ RPos(V2.left)                               \* perturbed output not deliverable: no bound
            \/ B!Le(ain, B!Add(RCeil(V2.in), k))                     \* bounded rounding
 
+\* By price: the pool moved from the logged pre-swap price to the logged post-swap price; for that move the
+\* curve prescribes an input (fee included) and an output: never charged less, never paid more (no dust on
+\* this side: every rounding of the code is in the pool's favour).
+ByPriceOK(C, zfo, ain, aout, endSqrt) ==
+    LET moved == IF zfo THEN RLe(endSqrt, C.sqrt) ELSE RLe(C.sqrt, endSqrt)
+        T == IdealTo(C, zfo, endSqrt)
+    IN  /\ Chk("price moves in the swap direction", moved)
+        /\ Chk("post-swap price reachable through the initialised ticks", T.ok)
+        /\ Chk("charged at least what the curve prescribes for the price move", RLe(T.in, RInt(ain)))
+        /\ Chk("paid at most what the curve prescribes for the price move", RLe(RInt(aout), T.out))
+
 SwapOK(ev) ==
     LET C    == CurveOf(prev)
         zfo  == ev.args.zfo
@@ -67,6 +78,7 @@ SwapOK(ev) ==
         aout == Paid(ev.st, ev.who, zfo)
     IN  /\ IF ev.args.exactIn THEN ExactInOK(C, zfo, ain, aout, ev.args.amt)
                               ELSE ExactOutOK(C, zfo, ain, aout, ev.args.amt)
+        /\ ByPriceOK(C, zfo, ain, aout, RScaled(ev.st.sqrt, 36))
         \* the executed result equals the estimate taken on the same state
         /\ ev.args.estOk
         /\ ev.args.est = ev.res.got
